@@ -1475,6 +1475,40 @@ func hasWordBoundaryAnchorCombo(re *syntax.Regexp) bool {
 	return hasWordBoundary(re) && hasAnchorAssertions(re)
 }
 
+// hasMisplacedAnchor reports whether some concatenation has an end anchor that is followed by
+// anything but end anchors, or a begin anchor that is preceded by anything but begin anchors.
+func hasMisplacedAnchor(re *syntax.Regexp) bool {
+	if re == nil {
+		return false
+	}
+	if re.Op == syntax.OpConcat {
+		isBegin := func(r *syntax.Regexp) bool { return r.Op == syntax.OpBeginLine || r.Op == syntax.OpBeginText }
+		isEnd := func(r *syntax.Regexp) bool { return r.Op == syntax.OpEndLine || r.Op == syntax.OpEndText }
+		onlyBeginSoFar := true
+		for i, sub := range re.Sub {
+			if isBegin(sub) && !onlyBeginSoFar {
+				return true
+			}
+			if !isBegin(sub) {
+				onlyBeginSoFar = false
+			}
+			if isEnd(sub) {
+				for _, later := range re.Sub[i+1:] {
+					if !isEnd(later) {
+						return true
+					}
+				}
+			}
+		}
+	}
+	for _, sub := range re.Sub {
+		if hasMisplacedAnchor(sub) {
+			return true
+		}
+	}
+	return false
+}
+
 // hasCaseInsensitiveUnicode returns true if the pattern uses case-insensitive (?i)
 // flag with non-ASCII characters. DFA may produce incorrect results for case-folded
 // Unicode (e.g., `(?i)привет` matching "ПРИВЕТ" returns partial match).
@@ -1648,21 +1682,26 @@ func SelectStrategy(n *nfa.NFA, re *syntax.Regexp, literals *literal.Seq, config
 		return strategy
 	}
 
+	// Assertion shapes the lazy DFA gets wrong, whatever the size of the automaton;
+	// such patterns stay on the NFA engines (the first guard used to sit inside the
+	// small-NFA case only, so larger patterns reached UseBoth, UseDFA and
+	// UseDigitPrefilter, where a DFA answer is final):
+	//   - a word boundary combined with a line or text anchor: a$\b on "a" -> no match;
+	//   - an anchor that is not at the edge of its concatenation ($ followed by more,
+	//     ^ preceded by more): (?m:$)(?m:^)x on "\nx" -> no match;
+	//   - a word boundary together with a lazy quantifier: the boundary shortcut of
+	//     the scan loops cannot tell whether the thread that matched outranks the
+	//     ones that go on (\d.*?\b must stop at the first boundary, \d.*\b must not).
+	if hasWordBoundaryAnchorCombo(re) || hasMisplacedAnchor(re) || (hasWordBoundary(re) && hasNonGreedyQuantifier(re)) {
+		return UseNFA
+	}
+
 	// Check for simple digit-lead patterns before general DFA routing.
 	// Patterns like `\d+\.\d+\.\d+` (14 NFA states) benefit more from
 	// DigitPrefilter than DFA because SIMD digit scanning skips
 	// non-digit regions entirely.
 	if shouldUseDigitPrefilter(re, nfaSize, config) {
 		return UseDigitPrefilter
-	}
-
-	// A word boundary combined with a line or text anchor ($\b, \b(?m)^) is resolved
-	// wrongly by the lazy DFA (it reports "no match" for a$\b on "a"), whatever the
-	// size of the automaton: such patterns stay on the NFA engines. The guard used
-	// to sit inside the small-NFA case only, so larger patterns reached UseBoth and
-	// UseDFA, where a negative DFA answer is final for Match.
-	if hasWordBoundaryAnchorCombo(re) {
-		return UseNFA
 	}
 
 	// Small NFA (< 20 states): use pure DFA (no PikeVM verification).
